@@ -5,6 +5,7 @@ cd "$(dirname "$0")/.."
 patch=$(readlink -f "$1"); shift
 props="$@"
 [ -z "$props" ] && props=$(python3 -c "import json;print(' '.join(c['property_id'] for c in json.load(open('MANIFEST.json'))['checks']))")
+if pgrep -x renet-sim >/dev/null; then echo "a renet-sim process is running (a sweep?): this script rebuilds the binary it uses with the change applied; use tools/try_seeded_scratch.sh instead" >&2; exit 2; fi
 if ! git -C /repo diff --quiet; then echo "/repo has uncommitted changes; refusing" >&2; exit 2; fi
 git -C /repo apply "$patch" || { echo "patch does not apply" >&2; exit 2; }
 trap 'git -C /repo checkout -- . ; ./check build >/dev/null 2>&1' EXIT
